@@ -48,6 +48,11 @@ func init() {
 				m.Store("INCOMING_CAP", 100)
 				s := &collect.StressRelief{RefineryMetrics: m, Config: cfg, Logger: &logger.NullLogger{}, Health: nopHealth{}, PubSub: stubPubSub{},
 					Peer: peer.NewMockPeers([]string{"me"}, "me"), Clock: clockwork.NewFakeClockAt(time.Unix(1700000000, 0)), Done: make(chan struct{})}
+				// Recalc has exactly one caller in Refinery, the monitor goroutine that Start() launches. The activity
+				// "monitor.Recalc" below IS that caller, so Start's own loop is switched off: with both running, two
+				// goroutines would be inside Recalc at once, which Refinery never does (it showed up as an intermittent
+				// race report between the two on the unchanged tree when the fake ticker happened to fire).
+				collect.VerifC35NoMonitorLoop(s)
 				if err := s.Start(); err != nil {
 					panic(err)
 				}
